@@ -383,6 +383,7 @@ class Arnoldi(KrylovBased):
         Returns the number of steps performed.
         """
         h = self._h_krylov
+        self._cache = []  # (a previous run has left its Krylov vectors)
         w = self.psi0  # initialize
         norm = npc.norm(w)
         for k in range(self.N_max):
